@@ -46,22 +46,26 @@ func (p *PKCS7PaddingReader) Read(buf []byte) (int, error) {
 	var n, off = 0, 0
 	var err error
 	if !p.eof {
-		// 读取文件
-		n, err = p.fIn.Read(buf)
-		if err != nil && !errors.Is(err, io.EOF) {
-			// 错误返回
-			return 0, err
+		// 读取文件，直到缓冲区填满或者文件结束（单次读取数量不足并不代表文件结束）
+		for n < len(buf) && !p.eof {
+			var m int
+			m, err = p.fIn.Read(buf[n:])
+			n += m
+			p.readed += int64(m)
+			if err != nil && !errors.Is(err, io.EOF) {
+				// 错误返回
+				return n, err
+			}
+			if errors.Is(err, io.EOF) {
+				// 标志文件结束
+				p.eof = true
+			}
 		}
-		p.readed += int64(n)
-		if errors.Is(err, io.EOF) {
-			// 标志文件结束
-			p.eof = true
-		}
-		if n == len(buf) {
+		if !p.eof {
 			// 长度足够直接返回
 			return n, nil
 		}
-		// 文件长度已经不足，根据已经已经读取的长度创建Padding
+		// 文件已经结束，根据已经已经读取的长度创建Padding
 		p.newPadding()
 		// 长度不足向Padding中索要
 		off = n
